@@ -182,9 +182,18 @@ func ruleBitOrigin(r *rep.Report, p *load.Program, which string) {
 		if fn := ssau.Func(p, "internal/modm", "Expand"); fn != nil {
 			for _, ln := range []int{16, 32, 64} {
 				called := false
+				var q1v, r1v []absint.Val
 				it := absint.NewInterp(absint.Hooks{Modular: modularFuncs, Summary: func(it *absint.Interp, f *ssa.Function, args []absint.AnyVal, call ssa.Instruction) (absint.AnyVal, bool) {
 					if f.Name() == "barrettReduce" {
 						called = true
+						if len(args) == 3 {
+							if q, ok := args[1].(absint.PtrV); ok {
+								q1v = append([]absint.Val{}, it.St.Objs[q.Obj].Vals...)
+							}
+							if q, ok := args[2].(absint.PtrV); ok {
+								r1v = append([]absint.Val{}, it.St.Objs[q.Obj].Vals...)
+							}
+						}
 						return nil, true
 					}
 					return nil, false
@@ -203,6 +212,31 @@ func ruleBitOrigin(r *rep.Report, p *load.Program, which string) {
 				} else {
 					r.Check(called, "P-expand-lengths", cfg, fmt.Sprintf("modm.Expand on %d bytes reduces modulo L (only inputs shorter than 32 bytes may skip the Barrett reduction)", ln), ssau.Pos(p, fn.Pos()),
 						"barrettReduce is reached", fmt.Sprintf("a %d-byte input is returned without reduction modulo L", ln))
+					if called {
+						// the reduction's operands: r1 = x mod 2^264 and q1 = x >> 248, bit for bit
+						rw := append([]int{}, widths...)
+						rw[n-1] = 264 - bpl*(n-1)
+						qwt := make([]int, n)
+						for i := range qwt {
+							qwt[i] = 248 + i*bpl
+						}
+						var bad []string
+						if len(r1v) != n || len(q1v) != n {
+							bad = append(bad, "operands of the reduction are not limb arrays")
+						} else {
+							for _, m := range checkLimbBits(r1v, weights, rw, 8*ln) {
+								bad = append(bad, "r1 "+m)
+							}
+							for _, m := range checkLimbBits(q1v, qwt, widths, 8*ln) {
+								bad = append(bad, "q1 "+m)
+							}
+						}
+						if len(bad) > 4 {
+							bad = bad[:4]
+						}
+						r.Check(len(bad) == 0, "O-bit-origin", cfg, fmt.Sprintf("modm.Expand on %d bytes: the Barrett operands are r1 = x mod 2^264 and q1 = x >> 248, bit for bit", ln), ssau.Pos(p, fn.Pos()),
+							fmt.Sprintf("2 x %d limbs verified bit by bit", n), strings.Join(bad, "; "))
+					}
 				}
 			}
 		}
